@@ -152,7 +152,7 @@ def check_crc(ck, prog):
         kret = fd.Key("var", "ret", domain=rets.values(), label="ret")
         kret2 = fd.Key("var", "ret_", domain=rets.values(), label="ret_")
         g = fd.FD(prog, f, [kseq, kret, kret2], cg=cg,
-                  call_values=lambda c, s: rs.call_set(c))
+                  call_values=lambda c, s: rs.call_set(c, f))
         g.run([g.make_state(seq=[v]) for v in en.values()])
 
         def is_advance(b, i, e, states, posvar=posvar):
